@@ -41,7 +41,7 @@ def rule_ctor(E, R):
                 "binary search over overlapping ranges can land on a range that does not contain the probe", s["sp"])
         if sorts:
             c = sorts[0][1]
-            key_ok = c["m"] in ("sort", "sort_unstable") or any(x["m"] == "start" for x in exprs(c, "MethodCall"))
+            key_ok = c["m"] in ("sort", "sort_unstable") or any(x["m"] == "start" for x in exprs_deep(c, "MethodCall"))
             R.check(key_ok, rule, fn, "sorted by range start", where=c["sp"])
         if merges:
             # the merge callback: a closure written in place, or a private function passed by name
